@@ -521,7 +521,7 @@ class C29(UICheck):
     exhaustive = True
     mc = []
     rule = ("texts: all sequences of <= 4 words with lengths from {1,2,3,5,9} separated by 1-3 spaces (no leading space), "
-            "plus single long words and sampled longer texts; indentation 0,1,2; every width leaving 1..12 characters of "
+            "plus single long words and sampled longer texts; indentation 0,1,2 (and every depth 3..20 on sampled texts); every width leaving 1..12 characters of "
             "room (and 80); the output is measured per line (tabs, length, lengths of space-separated pieces) and judged: "
             "terminates, every line = indentation + at most the room, all non-space characters in order, a word is cut "
             "only if it alone is longer than the room; non-trivial = text with >= 2 words; distinct by (text, indent, width)")
@@ -570,6 +570,14 @@ class C29(UICheck):
             gs.append([{"case": "f%d" % k, "op": "format", "text": words, "sepst": [rng.choice([1, 1, 1, 2]) for _ in words[1:]],
                         "indent": rng.choice([0, 1, 2]), "width": rng.choice([17, 20, 40, 80])}])
             k += 1
+        # deep indentations (every depth up to 20, beyond a screen of 80 columns) with little and with plenty of room
+        for indent in range(3, 21):
+            for room in (1, 7, 8, 9, 30, 52):
+                n = rng.randrange(4, 12)
+                words = ["".join(rng.choice("abcxyz.,") for _ in range(rng.choice([1, 2, 3, 4, 7, 12]))) for _ in range(n)]
+                gs.append([{"case": "f%d" % k, "op": "format", "text": words, "sepst": [rng.choice([1, 1, 2]) for _ in words[1:]],
+                            "indent": indent, "width": 8 * indent + room}])
+                k += 1
         return gs
 
 
